@@ -178,8 +178,8 @@ def rotate {α : Type} (xs : List α) : List α :=
 
 /-- `Thm.C05.resolve_outcome_perm_partial`, `answers_perm_partial`: the canonical answer is the same in other listing
 orders -/
-def oraclePerm (c : Content Mappings DiffModel.Diff) (req : Req) : Ans :=
-  if !wellFormedB req.dir then ood else
+def oraclePerm (c : Content Mappings DiffModel.Diff) (req : Req) (full : Bool := false) : Ans :=
+  if !full && !wellFormedB req.dir then ood else
   let base := (vgAnswer c req.dir req.queries).map Sexp.toStr
   let others := [req.dir.reverse, rotate req.dir, rotate (rotate req.dir), sortBy (fun a b => jlt a.1 b.1) req.dir,
     (sortBy (fun a b => jlt a.1 b.1) req.dir).reverse]
@@ -281,6 +281,10 @@ def handleC05 (op : String) (args : List Sexp) : Option Ans :=
   | "oracle-perm", [b, fs, qs] => do
     let req ← reqFrom b fs qs
     pure (oraclePerm (content req.tbl) req)
+  | "oracle-perm-full", [b, fs, qs] => do
+    -- replay only (never generated): `oracle-perm` without the `WellFormedDir` restriction
+    let req ← reqFrom b fs qs
+    pure (oraclePerm (content req.tbl) req true)
   | "oracle-names", [b, fs, qs] => do
     let req ← reqFrom b fs qs
     pure (oracleNames (content req.tbl) req)
